@@ -122,6 +122,70 @@ def native_check(v):
     return why is not None, {'why': why, 'result': r, 'files': files}
 
 
+def macro_half(rep, quick):
+    """Tier B: the derive-generated output_path() obeys the documented rule for every export_to string: absent -> `<name>.ts`,
+    ending in `/` -> the string with `<name>.ts` appended, otherwise the string verbatim"""
+    from . import tyres
+    tyres.setup()
+    TG = tyres.G
+    ob = di = 0
+    N = 3 if quick else 5
+    for item, nlen in [('E1', n) for n in range(0, N + 1)] + [('E5', n) for n in range(0, 3)] + [('E2', None), ('E3', None), ('E4', None)]:
+        if item not in TG['corpus']:
+            rep.inconclusive.append(f'corpus item {item} missing')
+            continue
+        ex = Explorer()
+        A = [z3.BitVec(f'e{i}', CH) for i in range(nlen or 0)]
+        B = [z3.BitVec(f'r{i}', CH) for i in range(1)]
+        for c in A:
+            ex.solver.add(z3.Or([c == ord(x) for x in '/.a']))
+        for c in B:
+            ex.solver.add(z3.Or([c == ord(x) for x in 'XY']))
+        gens = TG['corpus'][item]['generics']
+        ty = item + ('<' + ', '.join(gens) + '>' if gens else '')
+
+        def h(ctx):
+            r = tyres.Resolver(gens, sym={'sym_a': A, 'sym_b': B})
+            m = tyres.machine(ctx, r)
+            try:
+                v = m.call(f'<{ty} as TS>::output_path', [])
+            except Panic as e:
+                return ('panic', str(e))
+            return ('ok', v)
+        try:
+            res = ex.run(h)
+        except Unsupported as e:
+            rep.inconclusive.append(f'output_path of {item}: {e}')
+            continue
+        rep.absorb(dict(paths=ex.paths, nontrivial=ex.nontrivial, queries=ex.queries, solver_s=ex.solver_s))
+        name = {'E5': B}.get(item, o(item))
+        for pc, (k, v) in res:
+            ob += 1
+            if k == 'panic' or v.disc != 1:
+                if ex.check(pc) == z3.sat:
+                    rep.violations.append({'what': f'output_path() of {item} is not Some(..): {v}', 'witness': {'export_to': show(A, ex.model())},
+                                           'key': f'op/{item}/none'})
+                continue
+            got = v.fields[0].cs
+            given = {'E1': A, 'E5': A, 'E2': o('sub/dir/'), 'E3': None, 'E4': o('sub/file.ts')}[item]
+            if given is None:
+                want_dir, want_file = list(name) + o('.ts'), None
+                bad = neq_strings(got, want_dir)
+            else:
+                as_dir = list(given) + list(name) + o('.ts')
+                ends = (given[-1] == 47 if not is_sym(given[-1]) else given[-1] == 47) if given else False
+                ends = z3.BoolVal(bool(ends)) if isinstance(ends, bool) else ends
+                bad = z3.Or(z3.And(ends, neq_strings(got, as_dir)), z3.And(z3.Not(ends), neq_strings(got, list(given))))
+            if ex.check(pc + [bad]) == z3.sat:
+                mdl = ex.model()
+                rep.violations.append({'what': f'output_path() of `{TG["corpus"][item]["src"]}` with export_to = {show(A, mdl)!r}: {show(got, mdl)!r}',
+                                       'witness': {'item': item, 'export_to': show(A, mdl)}, 'key': f'op/{item}'})
+            else:
+                di += 1
+    rep.absorb(dict(obligations=ob, discharged=di))
+    rep.part('generated output_path() (tier B corpus)', obligations=ob)
+
+
 def main():
     rep = report.Report('C11', 'bounded symbolic execution of rustc MIR: the recursive export over a type universe whose dependency graph, '
                                'exportability and placement are solver variables; on every path the set of files created/modified and their '
@@ -150,10 +214,14 @@ def main():
     rep.bounds = {'types': n, 'adjacency_matrix': f'all {n}x{n} boolean matrices (self-loops, cycles, diamonds)', 'exportability': 'symbolic for the last type',
                   'placements per type': MENUS, 'pre-existing files': ['<base>/keep.txt', '<base>/sub/other.ts', '/tmp/outside.txt'],
                   'entries': sorted({(i[1], str(i[2])) for i in items}), 'cells': len(items)}
-    rep.outside += ['the generated output_path() (trailing-/ rule, export_to expressions): derive output, tier B',
+    rep.outside += ['export_to strings longer than the bound in the generated output_path() rule',
                     'dependencies reachable only through generic arguments / inlined / flattened / `as` types: what visit_dependencies '
                     'reports is given here (macro half)', 'graphs with more types']
     rep.assumptions += ['file-system model validated against the real file system (C06 validation + replay of counterexamples)']
+    try:
+        macro_half(rep, quick)
+    except Unsupported as e:
+        rep.inconclusive.append(f'macro half: {e}')
     results = par.pmap(explore, items)
     cand = []
     for r in results:
